@@ -498,7 +498,7 @@ func stripLoadOfParam(v ssa.Value) ssa.Value {
 func ruleSGReg(c *Ctx) {
 	c.Rule("SG-REG", "schema generation consults the schema registry before the kind switch, and every recursive step goes through the same entry", 4)
 	P := c.P
-	fn := P.Func(P.Avro, "schemaForType")
+	fn := schemaWorkerFn(P)
 	if !c.Anchor(fn != nil, "schemaForType") {
 		return
 	}
@@ -567,7 +567,7 @@ func ruleSGReg(c *Ctx) {
 			}
 			sig := cs.Static.Signature
 			if sig.Results().Len() == 2 && typeKey(sig.Results().At(0).Type()) == "avro.Schema" {
-				if cs.Static == fn {
+				if isSchemaEntry(P, cs.Static) {
 					n++
 					c.OKTrivial(fmt.Sprintf("%s/recurse#%d", fnKey(f), n), P.pos(cs.Instr.Pos()), "sub-type schema through schemaForType")
 					continue
